@@ -32,6 +32,7 @@ class SimThread:
         "tid", "role", "lock", "parked", "state", "deadline", "block_kind",
         "block_obj", "woke", "pending_exc", "prio", "carrier", "exc",
         "exc_tb", "harness_exc", "owner", "sim", "nsteps", "daemon",
+        "zombie", "slept",
     )
 
     def __init__(self, sim, tid, role, owner=None):
@@ -58,6 +59,11 @@ class SimThread:
         self.owner = None
         self.daemon = False
         self.nsteps = 0
+        # CPython <= 3.12 (bpo-45274): a KeyboardInterrupt raised inside
+        # Thread.join() marks the joined, still running thread as stopped
+        self.zombie = False
+        # has this thread ever waited in the program's own time.sleep()?
+        self.slept = False
 
     def __repr__(self):
         return "<SimThread %s %s>" % (self.role, self.state)
@@ -150,6 +156,7 @@ class Sim:
         self.inflight = 0
         self.boost = None  # [SimThread, remaining decisions]
         self.sleep_interrupt = None
+        self.sigint_handler = None   # installed through the signal seam
         self.burst_left = 0
         self.p_gc = tuple(cfg.get("p_gc", (0, 1)))
         self.in_gc = False
@@ -517,9 +524,7 @@ class Sim:
         self.note(op, detail, me=me)
         self._switch(me)
         if me.pending_exc is not None:
-            e = me.pending_exc
-            me.pending_exc = None
-            raise e
+            self._run_pending(me)
         return True
 
     def block(self, kind, obj=None, timeout=None):
@@ -533,10 +538,34 @@ class Sim:
         w = me.woke
         me.woke = None
         if me.pending_exc is not None:
-            e = me.pending_exc
-            me.pending_exc = None
-            raise e
+            self._run_pending(me)
         return w
+
+    @staticmethod
+    def _run_pending(me):
+        """A simulated signal arrives in this thread: the default SIGINT
+        action is an exception instance (KeyboardInterrupt) raised here; a
+        handler the program installed (signal seam) is a callable run here -
+        it may raise as well."""
+        e = me.pending_exc
+        me.pending_exc = None
+        if isinstance(e, BaseException):
+            raise e
+        e()
+
+    # block kinds in which the main thread of a program that does NOT wait
+    # in time.sleep() can be reached by a simulated Ctrl-C
+    _WAITS = ("join", "event", "cond", "get", "sem", "lock")
+
+    def _sig_payload(self, exc):
+        import signal as _signal
+        h = self.sigint_handler
+        if h is None or h is _signal.default_int_handler \
+                or h == _signal.SIG_DFL:
+            return exc
+        if h == _signal.SIG_IGN:
+            return lambda: None
+        return lambda: h(_signal.SIGINT, None)
 
     def sleep(self, dur, interruptible=False):
         """Virtual sleep.  interruptible=True only for the program's own
@@ -551,11 +580,12 @@ class Sim:
             self.note("stall", round(dur, 6))
             self.block("stall", None, dur)
             return
+        me.slept = True
         if self.sleep_interrupt is not None and self.sleep_interrupt[0] is me:
-            e = self.sleep_interrupt[1]
+            me.pending_exc = self.sleep_interrupt[1]
             self.sleep_interrupt = None
             self.note("interrupt.delivered", "at-sleep-entry")
-            raise e
+            self._run_pending(me)      # raises, or runs the handler
         self.note("sleep", round(dur, 6))
         self.block("sleep", None, dur)
 
@@ -583,9 +613,14 @@ class Sim:
     def interrupt(self, st, exc):
         """Deliver `exc` to simulated thread `st` while it sleeps: now if it
         is sleeping, else on entry to its next sleep()."""
-        if st.state == BLOCKED and st.block_kind in ("sleep", "ext"):
+        exc = self._sig_payload(exc)
+        if st.state == BLOCKED and (
+                st.block_kind in ("sleep", "ext")
+                or (st.block_kind in self._WAITS and not st.slept)):
             st.pending_exc = exc
-            self.note("interrupt.delivered", "during-sleep")
+            self.note("interrupt.delivered", "during-" + (
+                "sleep" if st.block_kind in ("sleep", "ext")
+                else st.block_kind))
             self._wake(st, "interrupt")
         else:
             self.sleep_interrupt = (st, exc)
@@ -700,8 +735,48 @@ def _sim_join(self, timeout=None):
     if st is sim.me():
         raise RuntimeError("cannot join current thread")
     sim.step("join", st.role)
-    if st.state != DONE:
-        sim.block("join", st, timeout)
+    if st.state == DONE or st.zombie:
+        return None
+    me = sim.me()
+
+    def interrupted_in_join():
+        # CPython <= 3.12, bpo-45274: an exception raised by a signal
+        # handler inside Thread.join() makes _wait_for_tstate_lock() release
+        # the tstate lock of the RUNNING thread and mark it as stopped
+        if sys.version_info < (3, 13) and st.state != DONE:
+            st.zombie = True
+            sim.note("join.bpo45274", st.role)
+            sim.count("join_interrupted_marks_thread_stopped")
+
+    if me is not None and not me.slept and sim.sleep_interrupt is not None \
+            and sim.sleep_interrupt[0] is me:
+        # a program that waits by joining (never slept): a pending Ctrl-C
+        # lands here
+        me.pending_exc = sim.sleep_interrupt[1]
+        sim.sleep_interrupt = None
+        sim.note("interrupt.delivered", "at-join-entry")
+        try:
+            sim._run_pending(me)
+        except BaseException:
+            interrupted_in_join()
+            raise
+    deadline = None if timeout is None else sim.now + max(0.0, timeout)
+    first = True
+    while st.state != DONE:
+        rem = None if deadline is None else max(0.0, deadline - sim.now)
+        if not first and rem is not None and rem <= 0:
+            break
+        first = False
+        try:
+            how = sim.block("join", st, rem)
+        except SimAbort:
+            raise
+        except BaseException:
+            interrupted_in_join()
+            raise
+        if how != "interrupt":
+            break      # finished or timed out
+        # a handler ran and returned: the wait goes on (PEP 475)
     return None
 
 
@@ -712,7 +787,7 @@ def _sim_is_alive(self):
     sim = st.sim
     if sim.active():
         sim.step("is_alive", st.role)
-    return st.state != DONE
+    return st.state != DONE and not st.zombie
 
 
 def install_thread_patches():
